@@ -164,8 +164,12 @@ def run(ctx):
     n = 100 if ctx.tier == "quick" else 1000
     corpus = os.path.join(vlib.ROOT, "corpus/C13/corpus.jsonl")
     env = vlib.go_env(); env.update(env_extra)
-    cmd = [cover_bin or binary, "--seed", str(ctx.seed), "--n", str(n), "--out", ctx.dir, "--tier", ctx.tier, "--extra", "corpus=" + corpus]
-    rc, out = vlib.sh(cmd, timeout=900, cwd=vlib.ROOT, env=env)
+    if cover_bin:
+        # coverage is measured on a run that evaluates the anchors ONLY (no sweep, no exact cases)
+        vlib.sh([cover_bin, "--seed", str(ctx.seed), "--n", str(n), "--out", ctx.dir, "--tier", ctx.tier, "--extra", "anchors-only"],
+                timeout=600, cwd=vlib.ROOT, env=env)
+    cmd = [binary, "--seed", str(ctx.seed), "--n", str(n), "--out", ctx.dir, "--tier", ctx.tier, "--extra", "corpus=" + corpus]
+    rc, out = vlib.sh(cmd, timeout=900, cwd=vlib.ROOT, env=vlib.go_env())
     if rc != 0:
         ctx.violation({"obligation": "C13 harness run", "log": out[-3000:]}, False, "harness failed on the implementation")
         return
@@ -220,11 +224,12 @@ def run(ctx):
     if cover_bin:
         cv = coverage(ctx, covdir)
         if cv:
-            ctx.cov["branch_coverage"] = {"blocks": cv["blocks"], "covered": cv["covered"]}
+            ctx.cov["branch_coverage"] = {"blocks": cv["blocks"], "covered_by_anchor_arguments": cv["covered"],
+                                          "how": "go build -cover block counters of the anchored functions on a run that evaluates the anchor arguments only (includes skipped/uncertified anchors)"}
             ctx.cov["uncovered_branches"] = cv["uncovered"] + [
                 "(by reading) gamma_incomplete_imp with a >= 170 non-normalised and Temme with a > 200: reached by the sweep only, "
                 "no certified anchor (closed forms too expensive for Coq-Interval)"]
-            ctx.log("block coverage of the anchored functions: %d/%d" % (cv["covered"], cv["blocks"]))
+            ctx.log("block coverage of the anchored functions by the anchor arguments: %d/%d" % (cv["covered"], cv["blocks"]))
     shutil.rmtree(covdir, ignore_errors=True)
     # ---- hunt / verdict
     broken = (not ok) or bad_cases or failing or undecided or sfail or (corp["failures"] or [])
